@@ -148,7 +148,7 @@ NEWDIMS = ["p", "q", "r", "s"]
 def _construct():
     def gen(w, rng):
         spec = V.gen_array_spec(rng, w.cfg)
-        forms = [0] + rng.sample([1, 2, 3, 4, 5, 6, 7], 1)
+        forms = [0] + rng.sample([1, 2, 3, 4, 5, 6, 7, 8, 9, 10, 11, 12], 1)
         return {"op": "construct", "spec": spec, "forms": forms, "out": out(w)}
 
     def run(w, s):
